@@ -91,6 +91,7 @@ func Exec(w *world.World, d *decoder.Decoder, c Call) (res CallResult) {
 		if p := recover(); p != nil {
 			st := string(debug.Stack())
 			res = CallResult{Panic: &PanicInfo{Value: fmt.Sprint(p), Stack: st, Sig: panicSig(p, st)}}
+			notePanic(res.Panic)
 		}
 	}()
 	ctx := context.Background()
@@ -155,6 +156,7 @@ func SafeBuild(build func() *world.World) (w *world.World, pi *PanicInfo) {
 		if p := recover(); p != nil {
 			st := string(debug.Stack())
 			pi = &PanicInfo{Value: fmt.Sprint(p), Stack: st, Sig: panicSig(p, st)}
+			notePanic(pi)
 		}
 	}()
 	w = build()
